@@ -129,6 +129,8 @@ public:
     CaptureModulePayload();
     CaptureModulePayload(const uint8_t* data, const size_t size);
 
+    bool isValid() const;
+
     uint8_t getVendorId() const;
     void setVendorId(uint8_t newId);
 
